@@ -84,11 +84,19 @@ def run_placeholder(case, mon):
     Q = reg[d]
     t = reg["Table"]("t")
     P_ = reg["Parameter"]
+    try:
+        return _run_placeholder(case, mon, reg, d, Q, t, P_)
+    except Exception as e:
+        mon.violation("%s:caller-placeholder:raises:%s" % (DIALECT_OF[d], type(e).__name__), "a Parameter term as %s (%s) raised %r" % (case["which"], case["pos"], e))
+
+
+def _run_placeholder(case, mon, reg, d, Q, t, P_):
     q = Q.from_(t).select(t.id).where(t.a == "v1").orderby(t.id)
     if case["pos"] == "set-operation":
         q = q.union(Q.from_(t).select(t.b).where(t.b == "v2")).orderby(t.id)
     if case["which"] in ("limit", "both"):
-        q = q.limit(P_(":lim"))
+        # (SQL Server's alias of limit(), every third case)
+        q = q.fetch_next(P_(":lim")) if d == "MSSQLQuery" and case["pos"] != "set-operation" and case["mode"] == "inline" else q.limit(P_(":lim"))
     if case["which"] in ("offset", "both"):
         q = q.offset(P_(":off"))
     if case["pos"] == "from-subquery":
